@@ -1,0 +1,11 @@
+//go:build verif
+
+package rtpsender
+
+import "github.com/pion/rtcp"
+
+// VerifReport generates a sender report immediately, exactly as the report
+// ticker does every Period. (verification instrumentation, build tag verif)
+func (rs *Sender) VerifReport() rtcp.Packet {
+	return rs.report()
+}
